@@ -206,17 +206,24 @@ def run(props, work, jobs=8):
     for k, p in enumerate(props):
         lines = []
         expect = {}
+        skipped = []
         for nme in names:                       # the uncorrupted trace first: must be accepted
             lines.extend(sess[nme])
         for (cname, sname, cprops, find, mut, shift) in corruptions():
             if p not in cprops:
                 continue
             evs = copy.deepcopy(sess[sname])
-            i = first(evs, find)
-            if mut == "REMOVE":
-                del evs[i]                       # the NEXT event of the session no longer fits the state
-            else:
-                mut(evs[i])
+            try:
+                i = first(evs, find)
+                if mut == "REMOVE":
+                    del evs[i]                       # the NEXT event of the session no longer fits the state
+                else:
+                    mut(evs[i])
+            except (KeyError, IndexError, TypeError, ToolError):
+                # the recorded base trace lacks what this corruption edits (e.g. an accessor panicked and its
+                # field is missing): the base trace itself is then nonconforming and is reported below
+                skipped.append(cname)
+                continue
             evs[0]["sid"] = f"st/{sname}/{cname}"
             expect[len(lines) + i + shift + 1] = cname
             lines.extend(evs)
@@ -234,6 +241,8 @@ def run(props, work, jobs=8):
                 si = max(i for i, st in enumerate(starts) if st <= line)
                 base_violations.append((S[names[si]], line - starts[si], op, cls))
             continue
+        if skipped:
+            raise ToolError(f"binding self-test for {p}: corruptions {skipped} could not be applied although the base trace conforms")
         missing = [c for l, c in expect.items() if l not in got]
         extra = sorted(got - set(expect))
         total += len(expect)
